@@ -1182,3 +1182,195 @@ Proof.
   - intros i e Hin. eapply e_fetch; eassumption.
   - intros e Hin. apply (e_wait _ _ IE _ Hin).
 Qed.
+
+(* ============================================================================ group D: liveness of tasks *)
+Definition hold (p : wphase) : list key := match p with WHas k | WGot k _ => [k] | _ => [] end.
+Definition lv (s : state) (k : key) : nat :=
+  cn (map snd (unsent s)) k + cn (queue s) k + cn (flat_map hold (ws s)) k.
+Definition errpath (s : state) : Prop :=
+  stop s = true \/ (exists o, onc s = ORun o) \/ exists w k, ws s !! w = Some (WFail k).
+Definition InvD (s : state) : Prop :=
+  forall k kr, keys s k = Some kr -> cache kr = None -> 0 < lv s k \/ errpath s.
+
+Lemma cn_fm_insert (f : wphase -> list key) (l : list wphase) w q p k : l !! w = Some q ->
+  cn (flat_map f (<[w := p]> l)) k + cn (f q) k = cn (flat_map f l) k + cn (f p) k.
+Proof.
+  intros H. assert (Hlt : w < length l) by (eapply lookup_lt_Some; eassumption).
+  rewrite insert_take_drop by assumption. rewrite <- (take_drop_middle _ _ _ H) at 3.
+  rewrite !flat_map_app'. cbn [flat_map]. rewrite !cn_app. lia.
+Qed.
+
+Lemma invD_init c : InvD (init c).
+Proof. intros k kr H. discriminate H. Qed.
+
+Lemma errpath_ws_other s (x : list wphase) :
+  (stop s = true \/ (exists o, onc s = ORun o)) -> errpath (set_ws s x).
+Proof. intros [H|H]; [left|right; left]; exact H. Qed.
+
+Ltac ep_move Hw He :=
+  let Hs := fresh "Hs" in let Ho := fresh "Ho" in let w1 := fresh "w" in let k1 := fresh "k" in let Hw1 := fresh "Hw" in
+  destruct He as [Hs|[Ho|(w1 & k1 & Hw1)]];
+  [right; left; exact Hs | right; right; left; exact Ho
+  |right; right; right; exists w1, k1; rewrite list_lookup_insert_ne;
+     [exact Hw1 | intros ->; rewrite Hw1 in Hw; discriminate Hw]].
+
+Lemma invD_step c s l s' : InvA c s -> InvD s -> step c s l = Some s' -> InvD s'.
+Proof.
+  intros IA ID H. destruct l; cbn [step] in H; des_step H; unfold InvD, lv, errpath in *;
+  cbn [keys txs err onc stop tclosed queue unsent fph gph ws dupid broken log set_w set_ws set_fph set_gph] in *.
+  all: try exact ID.
+  (* LFetch *)
+  - pose proof (fetch_keys_spec t (keys s) ks) as Hfk.
+    match goal with E : fetch_keys _ _ _ = _ |- _ => rewrite E in Hfk end.
+    intros k kr Hk Hc. rewrite map_app, map_snd_pair, cn_app.
+    destruct (fk_blocked _ _ _ _ _ _ _ _ Hfk Hk Hc) as [[HK _]|(kr0 & HK & Hc0 & _)].
+    + left. assert (Hin : k ∈ l).
+      { apply (fk_tasks _ _ _ _ _ _ Hfk). split; [|exact HK]. destruct (decide (k ∈ ks)) as [|Hni]; [assumption|].
+        rewrite (fk_other _ _ _ _ _ _ Hfk _ Hni), HK in Hk. discriminate. }
+      apply cn_pos in Hin. lia.
+    + destruct (ID _ _ HK Hc0) as [Hl|He]; [left; lia|right; exact He].
+  (* LSend *)
+  - intros k1 kr Hk Hc. destruct (ID _ _ Hk Hc) as [Hl|He]; [left|right; exact He].
+    match goal with Hp : pop_first _ _ = Some _ |- _ => rewrite (cn_pop _ _ _ _ k1 Hp) in Hl end.
+    rewrite cn_app, cn_single. lia.
+  (* LSendStop *)
+  - intros; right; left; reflexivity.
+  (* LTake *)
+  - intros k1 kr Hk Hc.
+    match goal with Hw : ws s !! _ = Some WIdle |- _ =>
+      pose proof (cn_fm_insert hold _ _ _ (WHas k) k1 Hw) as Hi;
+      destruct (ID _ _ Hk Hc) as [Hl|He]; [left|ep_move Hw He] end.
+    match goal with Hq : queue s = _ |- _ => rewrite Hq in Hl end. cbn [hold cn] in *. lia.
+  (* LExit *)
+  - intros k1 kr Hk Hc.
+    match goal with Hw : ws s !! _ = Some WIdle |- _ =>
+      pose proof (cn_fm_insert hold _ _ _ WExit k1 Hw) as Hi;
+      destruct (ID _ _ Hk Hc) as [Hl|He]; [left|ep_move Hw He] end.
+    cbn [hold cn] in *. lia.
+  (* LRead *)
+  - intros k1 kr Hk Hc. destruct (is_fail c k) eqn:Ef.
+    + right. right. right. exists w, k. apply list_lookup_insert. eapply lookup_lt_Some; eassumption.
+    + match goal with Hw : ws s !! _ = Some (WHas _) |- _ =>
+        pose proof (cn_fm_insert hold _ _ _ (WGot k (c_parent c !! k)) k1 Hw) as Hi;
+        destruct (ID _ _ Hk Hc) as [Hl|He]; [left|ep_move Hw He] end.
+      cbn [hold cn] in *. lia.
+  (* LSet *)
+  - intros k1 kr Hk Hc. unfold upd in Hk. destruct (decide (k = k1)) as [<-|Hne]; [inversion Hk; subst; discriminate|].
+    match goal with Hw : ws s !! _ = Some (WGot _ _) |- _ =>
+      pose proof (cn_fm_insert hold _ _ _ WIdle k1 Hw) as Hi;
+      destruct (ID _ _ Hk Hc) as [Hl|He]; [left|ep_move Hw He] end.
+    cbn [hold cn] in *. destruct (decide (k = k1)); [congruence|]. lia.
+  - intros k1 kr Hk Hc. assert (Hne : k <> k1) by (intros ->; congruence).
+    match goal with Hw : ws s !! _ = Some (WGot _ _) |- _ =>
+      pose proof (cn_fm_insert hold _ _ _ WIdle k1 Hw) as Hi;
+      destruct (ID _ _ Hk Hc) as [Hl|He]; [left|ep_move Hw He] end.
+    cbn [hold cn] in *. destruct (decide (k = k1)); [congruence|]. lia.
+  (* LErrSet *)
+  - intros; right; right; left; eexists; reflexivity.
+  (* LErrSkip *)
+  - intros. right. left.
+    match goal with Ho : onc s = ODone |- _ => destruct (a_done _ _ IA Ho) as [Hs|Hx] end; [exact Hs|not_exited].
+  (* LErrClose *)
+  - intros; right; left; reflexivity.
+  (* LStop *)
+  - intros; right; right; left; eexists; reflexivity.
+  (* LWaitClose *)
+  - intros k1 kr Hk Hc. specialize (ID _ _ Hk Hc).
+    match goal with Hq : unsent s = [] |- _ => rewrite Hq in ID end. exact ID.
+  (* LWaitRet *)
+  - intros k1 kr Hk Hc. destruct (ID _ _ Hk Hc) as [Hl|[Hs|[[o Ho]|He]]]; [left; exact Hl|right; left; exact Hs|congruence|].
+    right. right. right. exact He.
+  - intros k1 kr Hk Hc. destruct (ID _ _ Hk Hc) as [Hl|[Hs|[[o Ho]|He]]]; [left; exact Hl|right; left; exact Hs|congruence|].
+    right. right. right. exact He.
+Qed.
+
+Lemma reach_D c tr s : steps c (init c) tr s -> InvD s.
+Proof.
+  revert tr s. apply (steps_ind_inv c (fun _ s => InvD s)).
+  - apply invD_init.
+  - intros tr s l s' Hs IH Hst. destruct (reach_AB _ _ _ Hs) as [IA _]. eapply invD_step; eassumption.
+Qed.
+
+(* ============================================================================ progress *)
+(* labels of the fetcher's own threads and of callers already inside Fetch / Get *)
+Definition is_internal (l : label) : bool :=
+  match l with
+  | LFetch _ _ _ | LGetBegin _ _ | LStop | LWaitClose | LWaitRet => false
+  | _ => true
+  end.
+
+Lemma hold_nil_cn (l : list wphase) k :
+  (forall w p, l !! w = Some p -> p = WIdle \/ p = WExit) -> cn (flat_map hold l) k = 0.
+Proof.
+  induction l as [|p l IH]; intros H; [reflexivity|]. cbn [flat_map]. rewrite cn_app, IH.
+  - destruct (H 0 p eq_refl) as [->| ->]; reflexivity.
+  - intros w q Hq. apply (H (S w) q). exact Hq.
+Qed.
+
+Lemma progress c tr s : steps c (init c) tr s -> dupid s = false -> 1 <= c_nw c -> 1 <= c_cap c ->
+  (forall l, is_internal l = true -> step c s l = None) ->
+  (forall w p, ws s !! w = Some p -> p = WIdle \/ p = WExit) /\
+  unsent s = [] /\
+  (forall i, fph s i = FNone \/ exists e, fph s i = FRet e) /\
+  (forall g, gph s g = GNone \/ exists r, gph s g = GRet r).
+Proof.
+  intros Hs Hd Hnw Hcap Hq.
+  destruct (reach_AB _ _ _ Hs) as [IA IB]. pose proof (reach_C _ _ _ Hs Hd) as IC. pose proof (reach_D _ _ _ Hs) as ID.
+  (* 1: sync.Once is not running *)
+  assert (Honc : forall o, onc s <> ORun o).
+  { intros o Ho. specialize (Hq LErrClose eq_refl). cbn [step] in Hq. rewrite Ho in Hq. discriminate. }
+  (* 2: every worker is idle or gone *)
+  assert (Hws : forall w p, ws s !! w = Some p -> p = WIdle \/ p = WExit).
+  { intros w p Hw. destruct p as [|k|k r|k| |]; auto; exfalso.
+    - specialize (Hq (LRead w) eq_refl). cbn [step] in Hq. rewrite Hw in Hq. discriminate.
+    - specialize (Hq (LSet w) eq_refl). cbn [step] in Hq. rewrite Hw in Hq.
+      destruct (keys s k); [destruct (notify (txs s) (blocked k0))|]; discriminate.
+    - destruct (onc s) eqn:Eo.
+      + specialize (Hq (LErrSet w) eq_refl). cbn [step] in Hq. rewrite Hw, Eo in Hq. discriminate.
+      + first [eapply Honc; eassumption | eapply Honc; reflexivity].
+      + specialize (Hq (LErrSkip w) eq_refl). cbn [step] in Hq. rewrite Hw, Eo in Hq. discriminate.
+    - eapply Honc. apply (a_closing _ _ IA _ Hw). }
+  (* 3: a non-empty task channel is impossible, and so is a closed stop channel with an idle worker *)
+  assert (Hex : (exists w, ws s !! w = Some WIdle) \/ (exists w, ws s !! w = Some WExit)).
+  { assert (Hl : 0 < length (ws s)) by (rewrite (a_len _ _ IA); lia).
+    destruct (ws s) as [|p l] eqn:E; [cbn in Hl; lia|]. destruct (Hws 0 p) as [->| ->]; [reflexivity| |];
+      [left|right]; exists 0; reflexivity. }
+  assert (Hqueue : stop s = false -> queue s = []).
+  { intros Hst. destruct (queue s) as [|k q] eqn:Eq; [reflexivity|]. exfalso. destruct Hex as [[w Hw]|[w Hw]].
+    - specialize (Hq (LTake w) eq_refl). cbn [step] in Hq. rewrite Hw, Eq in Hq. discriminate.
+    - destruct (a_exit _ _ IA _ Hw) as [?|[_ ?]]; congruence. }
+  assert (Hidle : stop s = true -> forall w, ws s !! w <> Some WIdle).
+  { intros Hst w Hw. specialize (Hq (LExit w) eq_refl). cbn [step] in Hq. rewrite Hw, Hst in Hq. discriminate. }
+  (* 4: no Fetch call is in its send loop *)
+  assert (Hf : forall i, fph s i = FNone \/ exists e, fph s i = FRet e).
+  { intros i. destruct (fph s i) as [|t|e] eqn:Ef; [left; reflexivity| |right; eexists; reflexivity]. exfalso.
+    destruct (pop_first i (unsent s)) as [[k rest]|] eqn:Ep.
+    - destruct (stop s) eqn:Est.
+      + specialize (Hq (LSendStop i) eq_refl). cbn [step] in Hq. rewrite Ef, Ep, Est in Hq. discriminate.
+      + specialize (Hq (LSend i) eq_refl). cbn [step] in Hq. rewrite Ef, Ep, (Hqueue eq_refl) in Hq.
+        cbn [length] in Hq. destruct (Nat.ltb_spec 0 (c_cap c)); [discriminate|lia].
+    - specialize (Hq (LFetchRet i) eq_refl). cbn [step] in Hq. rewrite Ef, Ep in Hq. discriminate. }
+  assert (Hun : unsent s = []).
+  { destruct (unsent s) as [|[i k] u] eqn:Eu; [reflexivity|]. exfalso.
+    destruct (a_unsent _ _ IA i k) as [t Ht]; [rewrite Eu; constructor|].
+    destruct (Hf i) as [H|[e H]]; congruence. }
+  split; [exact Hws|]. split; [exact Hun|]. split; [exact Hf|].
+  (* 5: no Get call is blocked *)
+  intros g. destruct (gph s g) as [|t|t|r] eqn:Eg; [left; reflexivity| | |right; eexists; reflexivity]; exfalso.
+  - (* waiting *)
+    destruct (txs s t) as [r|] eqn:Et; [|exact (c_gwait _ _ IC _ _ Eg Et)].
+    destruct (wake_enabled c tr s g t r Hs Hd Eg Et) as (b & s2 & Hst).
+    + destruct (stop s) eqn:Est; [right; reflexivity|left].
+      intros k Hk. pose proof (c_txkeys _ _ IC _ _ Et _ Hk) as Hent.
+      unfold cachedK. destruct (keys s k) as [kr|] eqn:EK; [|congruence].
+      destruct (cache kr) eqn:Ec; [reflexivity|]. exfalso.
+      destruct (ID _ _ EK Ec) as [Hl|[Hst|[[o Ho]|(w & k' & Hw)]]].
+      * unfold lv in Hl. rewrite Hun, (Hqueue eq_refl), (hold_nil_cn _ _ Hws) in Hl. cbn in Hl. lia.
+      * congruence.
+      * eapply Honc; eassumption.
+      * destruct (Hws _ _ Hw); discriminate.
+    + rewrite (Hq (LGetWake g b) eq_refl) in Hst. discriminate.
+  - (* reading *)
+    destruct (c_gread _ _ IC _ _ Eg) as (r & Hr & _).
+    specialize (Hq (LGetRead g) eq_refl). cbn [step] in Hq. rewrite Eg, Hr in Hq. discriminate.
+Qed.
